@@ -290,6 +290,35 @@ mod rg {
         NLOG += 1;
     }
 
+    /// up to `n` further atomic steps of the concurrent `absolute(ABS_V)` (step list = its proved guarantee)
+    unsafe fn abs_steps(n: u8) {
+        let mut i = 0;
+        while i < 4 {
+            if i < n && ABS_PC < 4 {
+                match ABS_PC {
+                    0 => {
+                        let was = *(*P_ABS).as_ptr();
+                        *(*P_ABS).as_ptr() = true;
+                        ABS_REBASE = !was;
+                    }
+                    1 => {
+                        if ABS_REBASE {
+                            *(*P_LAST).as_ptr() = ABS_V;
+                        }
+                    }
+                    2 => {
+                        *(*P_CUR).as_ptr() = ABS_V;
+                    }
+                    _ => {
+                        *(*P_UPD).as_ptr() = (*(*P_UPD).as_ptr()).wrapping_add(1);
+                    }
+                }
+                ABS_PC += 1;
+            }
+            i += 1;
+        }
+    }
+
     /// Steps of the other threads between two atomic steps of the thread under contract.
     unsafe fn env() {
         match ENV {
@@ -309,32 +338,7 @@ mod rg {
             ENV_FIRST_ABSOLUTE => {
                 // RELY: one other thread is inside `absolute(ABS_V)` and advances by any number of its atomic steps
                 // (the step list is the GUARANTEE proved for the real `absolute` in c10_counter_absolute_guarantee_rg).
-                let n: u8 = kani::any();
-                let mut i = 0;
-                while i < 4 {
-                    if i < n && ABS_PC < 4 {
-                        match ABS_PC {
-                            0 => {
-                                let was = *(*P_ABS).as_ptr();
-                                *(*P_ABS).as_ptr() = true;
-                                ABS_REBASE = !was;
-                            }
-                            1 => {
-                                if ABS_REBASE {
-                                    *(*P_LAST).as_ptr() = ABS_V;
-                                }
-                            }
-                            2 => {
-                                *(*P_CUR).as_ptr() = ABS_V;
-                            }
-                            _ => {
-                                *(*P_UPD).as_ptr() = (*(*P_UPD).as_ptr()).wrapping_add(1);
-                            }
-                        }
-                        ABS_PC += 1;
-                    }
-                    i += 1;
-                }
+                abs_steps(kani::any());
             }
             _ => {}
         }
@@ -584,11 +588,7 @@ mod rg {
             ENV = ENV_FIRST_ABSOLUTE;
             let (delta, _updates) = c.flush();
             // let the other thread finish, then flush again without interference
-            let mut i = 0;
-            while i < 4 {
-                env();
-                i += 1;
-            }
+            abs_steps(4);
             ENV = ENV_NONE;
             assert!(ABS_PC == 4);
             let (delta2, _) = c.flush();
